@@ -80,3 +80,28 @@ Theorem C11_compressed_file_chunk_independent :
      Ok (ContainerHeaderProofs.header_entries json cname user, sync, map (dval_any Sc root) (vals_of hs), CEof)).
 Proof. exact ccr_file_read_back. Qed.
 
+
+(** ** The allocation cap is per value, not cumulative (proofs/ContainerLimitsProofs.v): whenever the slice reader delivers the values
+    of a file, the BufRead reader with ANY cap c that covers each single unbuffered request of the run delivers the same values --
+    nothing about the file length, earlier blocks or block sizes enters the condition *)
+Require Import DeClosure ContainerLimitsProofs.
+Local Open Scope N_scope.
+Theorem C11_container_cap_per_value :
+  forall (Sc : fschema) (cfg : dcfg) (t : dtarget) (file : bytes) (plan : list N) (c : N) (m : list (bytes * bytes))
+  (sy : bytes) (s' : rstate) (n : nat) (ds : list dval) (k : nat) (r' : rstate) (l0 l : list req),
+  schema_wf Sc = true ->
+  cr_open (slice_reader file) = Ok (m, sy, s') ->
+  cr_run Sc cfg sy t n {| cr_state := RNotInBlock s'; cr_pretend_eof := false |} = map IValue ds ++ repeat IEof k ->
+  let C := N.max c (N.of_nat (length file)) in
+  cr_open (chunked_reader file plan C) = Ok (m, sy, r') ->
+  open_tr (chunked_reader file plan C) l0 ->
+  run_tr Sc cfg sy t n {| cr_state := RNotInBlock r'; cr_pretend_eof := false |} l ->
+  (forall (q : N) (s : rstate), In (q, s) (l0 ++ l) -> free q s \/ q <= c) ->
+  exists ds' : list dval,
+  cr_open (chunked_reader file plan c) = Ok (m, sy, with_cap c r') /\
+  cr_run Sc cfg sy t n {| cr_state := RNotInBlock (with_cap c r'); cr_pretend_eof := false |} = map IValue ds' ++ repeat IEof k /\
+  map Denote.erase_borrow ds' = map Denote.erase_borrow ds.
+Proof. exact container_small_cap_follows_slice. Qed.
+
+
+Check container_cap_per_value.
